@@ -39,6 +39,13 @@ pub struct Knobs {
     pub probes: bool,
     /// Maximum number of script steps (0 = default).
     pub max_steps: usize,
+    /// One stimulus per instant (C04b): every frame to the node is followed by a 2 ms gap.
+    pub serial: bool,
+    /// 0: nothing; 1: injection points are timed no-ops (baseline run); 2: at each injection point a
+    /// message that the reference predicate rejects is sent on a dedicated connection.
+    pub inject: u8,
+    /// Seed of the side stream that places the injection points (same in both runs of a pair).
+    pub inject_seed: u64,
 }
 
 pub struct SoloRun {
@@ -57,6 +64,8 @@ pub struct SoloRun {
     pub probes: Vec<(String, bool, String)>,
     /// Classes of hostile input that were injected, with whether they decoded to a message.
     pub hostile: Vec<(String, bool)>,
+    /// Names of the messages injected (or that would have been injected in the baseline run).
+    pub injected: Vec<String>,
 }
 
 struct Script<'a, 'b> {
@@ -93,6 +102,11 @@ struct Script<'a, 'b> {
     anchor: Option<Digest>,
     probes: Vec<(String, bool, String)>,
     hostile: Vec<(String, bool)>,
+    serial: bool,
+    inject: u8,
+    side: u64,
+    inject_conns: Conns,
+    injected: Vec<String>,
 }
 
 fn genesis_digest() -> Digest {
@@ -261,6 +275,7 @@ impl<'a, 'b> Script<'a, 'b> {
         // 0: settle; 1: nothing (same instant -> races); 2: short; 3: long
         match self.t.weighted(&[10, 3, 2, 1]) {
             0 => self.settle().await,
+            1 if self.serial => self.settle().await,
             1 => {}
             2 => {
                 let d = self.t.range(1, 40);
@@ -316,6 +331,153 @@ impl<'a, 'b> Script<'a, 'b> {
     async fn send_to_sut(&mut self, from: usize, msg: &ConsensusMessage) {
         let sut = self.sut;
         let _ = self.conns.consensus(from, sut, msg).await;
+        if self.serial {
+            tokio::time::sleep(ms(2)).await;
+        }
+    }
+
+    fn side_next(&mut self, n: u64) -> u64 {
+        // xorshift64* on the side stream (seeded from the proptest-generated configuration)
+        let mut x = self.side;
+        x ^= x >> 12;
+        x ^= x << 25;
+        x ^= x >> 27;
+        self.side = x;
+        (x.wrapping_mul(0x2545F4914F6CDD1D) >> 33) % n.max(1)
+    }
+
+    /// Injection point of the non-interference pairs: same timing in both runs; only the second run
+    /// sends something, and only something the reference predicate rejects (or a wrong-leader block).
+    async fn injection_point(&mut self) {
+        if self.inject == 0 || self.side_next(3) != 0 {
+            return;
+        }
+        tokio::time::sleep(us(700)).await;
+        let kind = self.side_next(8);
+        let pidx = self.side_next(self.puppets.len() as u64) as usize;
+        let p = self.puppets[pidx];
+        let flip = |sig: &crypto::Signature, bit: usize| {
+            let mut b = refvalid::sig_bytes(sig);
+            b[(bit / 8) % 64] ^= 1 << (bit % 8);
+            refvalid::sig_from_bytes(&b)
+        };
+        let bit = self.side_next(512) as usize;
+        let tip = self.tip.clone();
+        let cur = self.cur;
+        let all_puppets = self.puppets.clone();
+        // a valid QC for the tip, if the discipline allows one (computed in both runs so that the
+        // certification state stays identical)
+        let tip_qc = match &tip {
+            Some(t) if self.certified.contains(t) => {
+                let round = self.round_of(t);
+                let signers = self.w.quorum_subset(&all_puppets).unwrap_or(all_puppets.clone());
+                Some(self.w.qc_for(t.clone(), round, &signers))
+            }
+            _ => None,
+        };
+        let (name, msg): (&str, Option<ConsensusMessage>) = match kind {
+            0 => {
+                // timeout for a future round with a bad signature, carrying a valid newer QC
+                let hq = tip_qc.clone().unwrap_or_else(QC::genesis);
+                let mut t = self.w.timeout(p, cur + 1, hq);
+                t.signature = flip(&t.signature, bit);
+                ("timeout-bad-signature-with-valid-qc", Some(ConsensusMessage::Timeout(t)))
+            }
+            1 => {
+                // TC for the current round with one corrupted entry
+                let signers = self.w.quorum_subset(&all_puppets).unwrap_or(all_puppets.clone());
+                let e: Vec<(usize, u64)> = signers.iter().map(|i| (*i, 0)).collect();
+                let mut tc = self.w.tc(cur, &e);
+                let k = self.side_next(tc.votes.len() as u64) as usize;
+                tc.votes[k].1 = flip(&tc.votes[k].1, bit);
+                ("tc-one-bad-signature", Some(ConsensusMessage::TC(tc)))
+            }
+            2 => {
+                // TC for the current round reaching "quorum" by repeating one signer
+                let one = all_puppets[0];
+                let e: Vec<(usize, u64)> = (0..self.w.n).map(|_| (one, 0)).collect();
+                ("tc-repeated-signer", Some(ConsensusMessage::TC(self.w.tc(cur, &e))))
+            }
+            3 => {
+                // vote for the tip with a signature made for another round
+                match &tip {
+                    Some(t) => {
+                        let r = self.round_of(t);
+                        let mut v = self.w.vote_for(p, t.clone(), r);
+                        v.signature = self.w.vote_for(p, t.clone(), r + 1).signature;
+                        ("vote-signature-from-other-round", Some(ConsensusMessage::Vote(v)))
+                    }
+                    None => ("none", None),
+                }
+            }
+            4 => {
+                // proposal for the current round by its leader with a corrupted block signature
+                let leader = self.w.leader(cur);
+                if leader != self.sut {
+                    let qc = tip_qc.clone().unwrap_or_else(QC::genesis);
+                    if qc.round + 1 == cur || (cur == 1 && refvalid::is_genesis_qc(&qc)) {
+                        let mut b = self.w.block(leader, cur, qc, None, vec![sha512_32(b"injected")]);
+                        b.signature = flip(&b.signature, bit);
+                        ("proposal-bad-signature", Some(ConsensusMessage::Propose(b)))
+                    } else {
+                        ("none", None)
+                    }
+                } else {
+                    ("none", None)
+                }
+            }
+            5 => {
+                // valid-looking proposal for the current round by an authority that is not its leader
+                let leader = self.w.leader(cur);
+                let others: Vec<usize> = all_puppets.iter().copied().filter(|x| *x != leader).collect();
+                match (others.first(), tip_qc.clone()) {
+                    (Some(a), Some(qc)) if qc.round + 1 == cur => ("proposal-wrong-leader", Some(ConsensusMessage::Propose(self.w.block(*a, cur, qc, None, Vec::new())))),
+                    _ => ("none", None),
+                }
+            }
+            6 => {
+                // proposal by the right leader whose QC was trimmed below the quorum
+                let leader = self.w.leader(cur);
+                match tip_qc.clone() {
+                    Some(mut qc) if leader != self.sut && qc.round + 1 == cur && qc.votes.len() > 1 => {
+                        qc.votes.pop();
+                        let signer_idx: Vec<usize> = qc.votes.iter().filter_map(|(k, _)| self.w.index_of(k)).collect();
+                        if self.w.stake_of(&signer_idx) < self.w.quorum() {
+                            ("proposal-qc-below-quorum", Some(ConsensusMessage::Propose(self.w.block(leader, cur, qc, None, Vec::new()))))
+                        } else {
+                            ("none", None)
+                        }
+                    }
+                    _ => ("none", None),
+                }
+            }
+            _ => {
+                // vote by a key that is not in the committee
+                let outsider = World::new(&[1], 4242);
+                match &tip {
+                    Some(t) => ("vote-from-non-member", Some(ConsensusMessage::Vote(outsider.vote_for(0, t.clone(), self.round_of(t))))),
+                    None => ("none", None),
+                }
+            }
+        };
+        if let Some(m) = msg {
+            // sanity: only reference-invalid messages or wrong-leader proposals are injected
+            let rejected = match &m {
+                ConsensusMessage::Propose(b) => refvalid::ref_block(self.w, b).is_err() || self.w.index_of(&b.author) != Some(self.w.leader(b.round)),
+                ConsensusMessage::Vote(v) => refvalid::ref_vote(self.w, v).is_err(),
+                ConsensusMessage::Timeout(t) => refvalid::ref_timeout(self.w, t).is_err(),
+                ConsensusMessage::TC(t) => refvalid::ref_tc(self.w, t).is_err(),
+                ConsensusMessage::SyncRequest(..) => false,
+            };
+            if rejected {
+                if self.inject == 2 {
+                    let sut = self.sut;
+                    let _ = self.inject_conns.consensus(p, sut, &m).await;
+                }
+                self.injected.push(name.to_string());
+            }
+        }
+        tokio::time::sleep(us(300)).await;
     }
 
     fn observe_cert_rounds(&mut self, b: &Block) {
@@ -689,6 +851,12 @@ impl<'a, 'b> Script<'a, 'b> {
         };
         self.served_sync += syncs.len();
         self.served_batch += breqs.len();
+        // canonical order: the node iterates hash maps when it (re)broadcasts requests, so their
+        // arrival order is not a function of the seed
+        let mut syncs = syncs;
+        syncs.sort_by_key(|(d, _, p)| (self.round_of(d), d.0.to_vec(), *p));
+        let mut breqs = breqs;
+        breqs.sort_by_key(|(ds, _, p)| (ds.iter().map(|d| d.0.to_vec()).collect::<Vec<_>>(), *p));
         for (d, _who, puppet) in syncs {
             let mode = if force { 0 } else { self.t.weighted(&[8, 1, 1]) };
             match (mode, self.blocks.get(&d).cloned()) {
@@ -1195,7 +1363,7 @@ pub fn run_solo(case: &Case, profile: Profile, knobs: &Knobs) -> SoloRun {
     let knobs = knobs.clone();
     let params2 = params.clone();
     let sut_id = sut as u32 + 1;
-    let (blocks, batches, steps, stats, probes, hostile) = sim::run_sim(rt_seed ^ 0x5010, || async {
+    let (blocks, batches, steps, stats, probes, hostile, injected) = sim::run_sim(rt_seed ^ 0x5010, || async {
         let w = &w;
         simnet::install(Box::new(RigPolicy {
             on_connect: Box::new(|_, _| ConnectDecision::Accept(us(0))),
@@ -1235,6 +1403,11 @@ pub fn run_solo(case: &Case, profile: Profile, knobs: &Knobs) -> SoloRun {
             anchor: None,
             probes: Vec::new(),
             hostile: Vec::new(),
+            serial: knobs.serial,
+            inject: knobs.inject,
+            side: knobs.inject_seed | 1,
+            inject_conns: Conns::default(),
+            injected: Vec::new(),
         };
         tokio::time::sleep(ms(3)).await;
         s.absorb();
@@ -1267,6 +1440,7 @@ pub fn run_solo(case: &Case, profile: Profile, knobs: &Knobs) -> SoloRun {
                 9 => s.serve_requests(false).await,
                 _ => s.advance(true).await,
             }
+            s.injection_point().await;
             s.pause().await;
             if knobs.hostile && s.t.chance(2, 3) {
                 let k = 1 + s.t.below(3);
@@ -1286,7 +1460,7 @@ pub fn run_solo(case: &Case, profile: Profile, knobs: &Knobs) -> SoloRun {
         if knobs.probes {
             s.run_probes().await;
         }
-        (s.blocks, s.batches, s.steps, s.stats, s.probes, s.hostile)
+        (s.blocks, s.batches, s.steps, s.stats, s.probes, s.hostile, s.injected)
     });
     let log = sim::take_log();
     let hist = rig::node_history(&log, sut_id);
@@ -1314,6 +1488,7 @@ pub fn run_solo(case: &Case, profile: Profile, knobs: &Knobs) -> SoloRun {
         panics,
         probes,
         hostile,
+        injected,
     }
 }
 
